@@ -52,7 +52,7 @@ def evalH (s : Sig) (body : PDict → Res Val) (unh : Call → Bool) :
       match attempts (fun st => evalH s body unh rest st c) (repeatOf p) st with
       | (st1, .ok v) => (st1, .ok v)
       | (st1, .error e) =>
-        if p.lookup "return_value" = some (.cell (.bool false)) then (st1, .error e)
+        if returnsValue p = false then (st1, .error e)
         else (st1, .ok ((p.lookup "value").getD (.cell .none)))
   | (.tryBack, _) :: rest, st, c =>
       match evalH s body unh rest st c with
